@@ -492,9 +492,9 @@ impl Compile {
                 } else if d13_condition(&m) && stderr.contains("ambiguous associated item") && codes.iter().all(|c| c == "error") {
                     "rustc-ambiguous-associated-item:variant-named-Error".to_string()
                 } else {
-                    // attribute the failure to the hostile names present
-                    let names: Vec<String> = placed.iter().filter(|(_, n)| stderr.contains(&format!("`{n}`")) || first_line.contains(n.as_str())).map(|(r, n)| format!("{}={n}", r.name())).collect();
-                    let what = if m.terms.is_empty() { "zero-terminals".to_string() } else if names.is_empty() { "unattributed".to_string() } else { names.into_iter().take(2).collect::<Vec<_>>().join(",") };
+                    // attribute the failure to the identifier rustc complains about first
+                    let ident: String = first_line.split('`').nth(1).unwrap_or("").chars().filter(|c| c.is_ascii_alphanumeric() || *c == '_').take(40).collect();
+                    let what = if m.terms.is_empty() { "zero-terminals".to_string() } else if ident.is_empty() { "unattributed".to_string() } else { ident };
                     format!("rustc-{first}:{what}")
                 };
                 w.violation(
